@@ -861,7 +861,18 @@ def gen_bulk_doc(rng, idx: int) -> Doc:
     fd.obj = {"Type": "Font", "Subtype": "Type1", "BaseFont": "Helvetica"}
     objs: Dict[int, Any] = {CATALOG: {"Type": "Catalog", "Pages": Ref(PAGES)}, FONT_BASE: fd.obj}
     d.fonts[FONT_BASE] = fd
-    nstreams = 24
+    # many font objects (font cache growth): clones with every base-encoding spelling
+    nfonts = 150
+    many: List[Tuple[str, int, FontDesc]] = []
+    for j in range(nfonts):
+        f = FontDesc()
+        f.kind = "std14"
+        f.base = j % len(BASE_ENC_MENU)
+        f.obj = {"Type": "Font", "Subtype": "Type1", "BaseFont": STD14[j % len(STD14)], "Encoding": BASE_ENC_MENU[f.base]}
+        objs[1000 + j] = f.obj
+        d.fonts[1000 + j] = f
+        many.append(("G%d" % j, 1000 + j, f))
+    nstreams = 400          # many content streams (object cache growth)
     tag0 = rng.randrange(10) * 100000
     chunks = []
     per = BULK // nstreams + 1
@@ -877,7 +888,8 @@ def gen_bulk_doc(rng, idx: int) -> Doc:
         objs[base + j] = Stream({"Filter": "FlateDecode"}, zlib.compress(body))
         refs.append(Ref(base + j))
     res = {"Font": {"F1": Ref(FONT_BASE)}}
-    objs[12] = {"Type": "Page", "Parent": Ref(PAGES), "MediaBox": [0, 0, 612, 792], "Resources": res, "Contents": refs}
+    res0 = {"Font": dict({"F1": Ref(FONT_BASE)}, **{nm: Ref(n) for nm, n, _ in many})}
+    objs[12] = {"Type": "Page", "Parent": Ref(PAGES), "MediaBox": [0, 0, 612, 792], "Resources": res0, "Contents": refs}
     objs[10] = Stream({}, b"BT /F1 11 Tf 80.25 650 Td (after the bulk page) Tj ET\n")
     objs[15] = {"Type": "Page", "Parent": Ref(PAGES), "MediaBox": [0, 0, 612, 792], "Resources": res, "Contents": Ref(10)}
     objs[PAGES] = {"Type": "Pages", "Kids": [Ref(12), Ref(15)], "Count": 2}
@@ -885,15 +897,16 @@ def gen_bulk_doc(rng, idx: int) -> Doc:
     d.open_reads = [CATALOG]
     d.all_objnums = sorted(objs)
     d.walk_reads = [[PAGES, 12], [15, 10]]
-    d.proc_reads = [[FONT_BASE] + [r.n for r in refs], [FONT_BASE]]
-    d.page_fontids = [[FONT_BASE], [FONT_BASE]]
-    d.page_fonts = [[("F1", FONT_BASE, fd)], [("F1", FONT_BASE, fd)]]
+    d.proc_reads = [[FONT_BASE] + [n for _, n, _ in many] + [r.n for r in refs], [FONT_BASE]]
+    d.page_fontids = [[FONT_BASE] + [n for _, n, _ in many], [FONT_BASE]]
+    d.page_fonts = [[("F1", FONT_BASE, fd)] + many, [("F1", FONT_BASE, fd)]]
     d.page_shows = [[(fd, b"bulk AZ")], [(fd, b"after the bulk page")]]
     d.page_gops = [[], []]
     names = set(content_names(d.data)) | {"F1"}
     names.update("T%06d" % (tag0 + i) for i in range(BULK))
     d.names = sorted(names)
-    d.features = ["bulk:names=%d" % BULK, "bulk:keywords=%d" % BULK, "bulk:content-streams=%d" % (nstreams + 1)]
+    d.features = ["bulk:names=%d" % BULK, "bulk:keywords=%d" % BULK, "bulk:content-streams=%d" % (nstreams + 1),
+                  "bulk:fonts=%d" % (nfonts + 1)]
     d.bulk = True
     return d
 
